@@ -355,7 +355,7 @@ def _serializer(ctx, res) -> None:
 
     dict_locals = {n.targets[0].id for fn in (enc, dec) for n in walk_local(fn.node)
                    if isinstance(n, ast.Assign) and isinstance(n.targets[0], ast.Name) and isinstance(n.value, ast.Dict) and not n.value.keys}
-    ecfg, dcfg = CFG(enc.node), CFG(dec.node)
+    ecfg, dcfg = CFG(common.inline_private_calls(idx, enc)), CFG(common.inline_private_calls(idx, dec))  # loops moved into private helpers are read in place
     emit: Dict[Tuple[str, int], Tuple[str, Optional[str]]] = {}
     for n in ecfg.nodes:
         if n.kind == "stmt" and isinstance(n.ast, ast.Return) and n.ast.value is not None:
@@ -605,7 +605,8 @@ def _data_files(ctx, res) -> None:
                     return handles[h.id]
         return None
 
-    a, b = stream_path(rd.node, "load"), stream_path(wr.node, "dump")
+    # (the pickle loop may live in a private helper that is handed the open stream: read in place)
+    a, b = stream_path(common.inlined(idx, rd), "load"), stream_path(common.inlined(idx, wr), "dump")
     if a is None or b is None:
         res.undecided("R12.5", "codec-path", rd.where, "pickle stream path not resolved")
     else:
